@@ -65,8 +65,8 @@ def run(ctx, rep):
     rep.rule('R02.f', 'sibling implementations agree: the two range readers of the log use the same stop condition; both index lookups are reached from the same loader with the same range', floor=2, analysis='A6')
     a = comparison_forms(ctx, rf.LR + '::load_batches_by_range_impl')
     b = comparison_forms(ctx, rf.LR + '::load_batches_by_range_with_callback')
-    fa = sorted(f for v in a.values() for f in v)
-    fb = sorted(f for v in b.values() for f in v)
+    fa = sorted(f for _, f in cmp_classes(a))      # a comparison and its negation are the same test (inverted branches)
+    fb = sorted(f for _, f in cmp_classes(b))
     rep.ob('R02.f', rf.LR, 'range readers agree', fa == fb, None,
            'both range readers decide with %d identical comparisons' % len(fa) if fa == fb else 'load_batches_by_range_impl and _with_callback differ: only in impl %s, only in callback %s' % (sorted(set(fa) - set(fb)), sorted(set(fb) - set(fa))))
     lb = ctx.fn_body(rf.S + '::load_messages_from_disk')
